@@ -6,7 +6,9 @@ correspondence: real parser vs model on renderings whose true lines are recorded
 oracles:        every command / argument / list element / tuple value carries the line the renderer recorded; the same text parsed after 0-3 earlier
                 parses on the same Parser object (valid, EEMS 2.0-style, failing at a late line) and through repeated Program.from_source gives the same
                 tree; every injected fault reports the line of the offending command or argument (None allowed, wrong never); a cycle is reported at
-                a command on the cycle; run-time errors of real bodies carry the line of their command/argument; the CLI marks that line
+                a command on the cycle; run-time errors of real bodies carry the line of their command/argument; the CLI marks that line;
+                sources of 10^5-10^6 characters / lines, thousands of commands (node lines, loader hand-over, fault lines, CLI mark); a finished
+                plug-in producer whose actual result a consumer refuses: the error carries a line of that consumer
 """
 import os
 import subprocess
@@ -296,6 +298,286 @@ def cli_marks(ctx, count, model=None):
                 ctx.count("cli_context_line_above_differs")
 
 
+def big_ast(rng, n):
+    cmds = []
+    while len(cmds) < n:
+        cmds += [(r + "_%d" % (len(cmds) + i), c, a) for i, (r, c, a) in enumerate(render.rand_ast(rng, max_cmds=8))]
+    return cmds[:n]
+
+
+# where the canonical text of a tree holds line numbers (names and strings are hex-encoded: no other parenthesis in it)
+LINE_FIELD = __import__("re").compile(r"((?:cmd\([0-9a-f~-]+,[0-9a-f-]+,)|(?:arg\([0-9a-f-]+,)|(?:e\())(\d+)")
+
+
+def first_wrong_node(exp, real, src):
+    """the first command of two canonical trees that differs, with the text of its lines (a replay must not hold a megabyte of source)"""
+    a, b = exp.split(" cmd("), real.split(" cmd(")
+    k = next((i for i, (x, y) in enumerate(zip(a, b)) if x != y), min(len(a), len(b)))
+    import re
+    true_ = a[k] if k < len(a) else ""
+    nums = [int(m.group(2)) for m in LINE_FIELD.finditer("cmd(" + true_)] or [1]
+    lines = src.replace("\r\n", "\n").split("\n")
+    return {"command_number": k, "true": true_[:600], "parsed": (b[k] if k < len(b) else "")[:600], "characters": len(src), "lines": len(lines),
+            "text_of_the_command": "\n".join(l if len(l) < 200 else l[:200] + " ..." for l in lines[max(0, min(nums) - 1):max(nums) + 1])[:1500]}
+
+
+def large_sources(ctx):
+    """the line of every node is a function of the text before it, whatever the size of the text: a ladder of sizes by number of commands (generated models
+    of thousands of commands), by characters (a short model among megabytes of comment lines and long strings) and by lines (a short model below a
+    hundred thousand blank lines); faults at known lines at the end of models of thousands of commands; the line the command-line tool marks there"""
+    from mpilot.program import Program
+    from mpilot.arguments import ListArgument
+    rng = ctx.rng
+    prog.testlib()
+    sizes = [700, 2600, 7000] + ([20000] if ctx.thorough else [])
+    texts = []
+    for n in sizes:
+        src, exp = render.render(big_ast(rng, n), rng, rng.choice(["\n", "\r\n"]) if n < 5000 else "\n", wild=True)
+        texts.append(("%d commands" % n, src, exp))
+    # few commands, many characters / many lines: the same rendering with its blank gaps between commands blown up
+    small, exp_small = render.render(big_ast(rng, 12), rng, "\n", wild=False)
+    for label, pad, per in (("comment lines of 2 MB in all before and between 12 commands", "# " + "generated by a tool, do not edit; " * 30 + "\n", 170),
+                            ("120 000 blank lines before and between 12 commands", "\n", 10000), ("150 000 characters of blanks", " " * 997 + "\n", 13)):
+        out, shift, exp = [], 0, exp_small
+        import re
+        cmds_txt = small.split("\n")
+        assert cmds_txt[-1] == ""
+        new_lines = []
+        for ln in cmds_txt[:-1]:
+            if re.match(r"^[A-Za-z_][A-Za-z_0-9]*=", ln) or re.match(r"^[A-Za-z_][A-Za-z_0-9]* *=", ln):
+                new_lines += [pad[:-1]] * per
+            new_lines.append(ln)
+        # true lines: every command of the plain rendering starts at a line start; shift its lines by the padding put in front of it
+        starts = [i for i, ln in enumerate(cmds_txt[:-1]) if re.match(r"^[A-Za-z_][A-Za-z_0-9]* *=", ln)]
+
+        def shifted(m):
+            old = int(m.group(2))
+            k = sum(1 for st in starts if st + 1 <= old)
+            return "%s%d" % (m.group(1), old + k * per)
+        exp = LINE_FIELD.sub(shifted, exp_small)
+        texts.append((label, "\n".join(new_lines) + "\n", exp))
+    for label, src, exp in texts:
+        real = parsing.real_parse(src)
+        ctx.case("large %s %d" % (label, len(src)), sample={"size": label, "characters": len(src), "lines": src.count("\n")})
+        ctx.count("large_sources")
+        ctx.count("large_source_characters", len(src))
+        if real != exp:
+            ctx.fail("in a source of %d characters / %d lines (%s) a node of the parse tree does not carry the line it starts on" % (len(src), src.count("\n"), label), first_wrong_node(exp, real, src))
+    # models of thousands of commands (lists over several lines) with one fault at the end / in the middle: the loader hands every line on, the error names the fault's line
+    faults = [(["Bad = N(", "  # the second one does not exist", "  Many = [c_0,", "", "          NoSuchResult]", ")"], "ResultDoesNotExist", [1, 3, 5]),
+              (["Bad = S(Req = 1,", "  Nums = [1,", "    x]", ")"], "ParameterNotValid", [1, 2, 3]),
+              (["Bad = N(", "", "  Bogus = [1, 2]", ")"], "NoSuchParameter", [1, 3]),
+              (["Bad = N(", "  One = [c_0]", ")"], "ParameterNotValid", [1, 2]),
+              (["Bad = S(", "  Req = 2,", "  Tup = [k: v, j: w],", "  Bool = [1,", "   0]", ")"], "ParameterNotValid", [1, 4, 5]),
+              (["c_1 = N(Many = [", "  c_0])"], "DuplicateResult", [1])]
+    for n in [900, 3200] + ([12000] if ctx.thorough else []):
+        for fi, (fault, err, rel) in enumerate(faults):
+            if n > 1000 and fi not in (0, 1, 2):
+                continue
+            lines, truth = ["c_0 = N()"], {}
+            at = n - 1 if fi % 2 == 0 else n // 2
+            fault_at = None
+            for i in range(1, n):
+                lines += [""] * rng.randrange(0, 2) + ["# step %d" % i] * rng.randrange(0, 2)
+                lines.append("c_%d = N(" % i)
+                cl = len(lines)
+                lines.append("    Many = [c_%d," % (i - 1))
+                al = len(lines)
+                lines.append("            c_0],")
+                lines.append("    Fail = no")
+                lines.append(")")
+                truth["c_%d" % i] = (cl, {"Many": (al, [al, al + 1]), "Fail": (al + 2, None)})
+                if i == at:
+                    fault_at = len(lines)
+                    lines += fault
+            src = "\n".join(lines) + "\n"
+            allowed = [fault_at + r for r in rel]
+            p = None
+            try:
+                p = Program.from_source(src, libraries=(prog.TESTLIB,))
+                if err not in ("NoSuchParameter", "DuplicateResult"):
+                    p.run()
+                got = "ok"
+            except Exception as e:
+                got = progrun.classify(e)
+            ctx.case("large-fault %d %d" % (n, fi), sample={"commands": n, "characters": len(src), "fault": "\n".join(fault), "outcome": got})
+            ctx.count("large_source_faults")
+            desc = {"source": "c_0 = N() ... %d commands c_i = N(Many = [c_(i-1),\\n c_0], Fail = no), %d characters, %d lines; after command c_%d, from line %d on:\n%s" % (
+                n, len(src), len(lines), at, fault_at + 1, "\n".join(fault)), "lines_of_the_offending_command_and_argument": allowed}
+            parts = got.split(":")
+            if parts[:2] != ["mp", err]:
+                ctx.fail("a model of %d commands with one fault: expected %s, got %s" % (n, err, got), desc)
+            elif parts[2] in ("-", "~") or int(parts[2]) not in allowed:
+                ctx.fail("a model of %d commands (%d characters): %s carries line %s; the offending command/argument is on line %r" % (n, len(src), err, parts[2], allowed), desc)
+            if p is not None and err not in ("NoSuchParameter", "DuplicateResult"):
+                # what the loader handed on: every command, argument and list element with its own line
+                for name, (cl, args) in truth.items():
+                    c = p.commands[name]
+                    got_ = (c.lineno, dict((a.name, (a.lineno, list(a.list_linenos) if isinstance(a, ListArgument) and a.list_linenos is not None else None)) for a in c.arguments))
+                    if got_ != (cl, args):
+                        ctx.fail("a model of %d commands (%d characters): command %s is loaded with line %r and argument / element lines %r; in the file they are %r / %r" % (
+                            n, len(src), name, got_[0], got_[1], cl, args), {"source": "\n".join(lines[cl - 2:cl + 5]), "first_line_shown": cl - 1})
+                        break
+    # the command-line tool on a large file of built-in commands: the marked line is the fault's
+    from click.testing import CliRunner
+    from mpilot.cli.mpilot import main
+    tmp = common.tmpdir("mpv_c11L_")
+    open(os.path.join(tmp, "in.csv"), "w").write("a\n1\n2\n")
+    try:
+        runner = CliRunner(mix_stderr=False)
+    except TypeError:
+        runner = CliRunner()
+    for n, padded in ((1500, False), (150, True)):
+        lines = ["# generated model", 'R0 = EEMSRead(', '    InFileName = "in.csv",', "    InFieldName = a", ")"]
+        for i in range(1, n):
+            if padded:
+                lines += ["# " + "layer %d of the generated model; " % i * 60]
+            lines += ["", "S%d = WeightedSum(" % i, "    InFieldNames = [R0,", "                    %s]," % ("S%d" % (i - 1) if i > 1 else "R0"), "    Weights = [0.25, 0.75],", '    Metadata = [Description: "layer %d"]' % i, ")"]
+        lines += ["", "Bad = Sum(", "    InFieldNames = [R0,", "       NoSuchResult_%d]" % n, ")", "# the end", "Last = Copy(InFieldName = R0)"]
+        allowed = [len(lines) - 5, len(lines) - 4, len(lines) - 3]
+        text = "\n".join(lines) + "\n"
+        path = os.path.join(tmp, "big%d.mpt" % n)
+        with open(path, "w") as f:
+            f.write(text)
+        res = runner.invoke(main, ["eems-csv", path])
+        try:
+            err_text = res.stderr
+        except ValueError:
+            err_text = res.output
+        marked = [l[4:] for l in (err_text or "").split("\n") if l.startswith("--> ")]
+        ctx.case("large-cli %d %s" % (n, padded), sample={"commands": n, "characters": len(text), "marked": marked[:2]})
+        ctx.count("large_source_cli")
+        desc = {"command_file": "%d WeightedSum commands over several lines each, %d characters, %d lines, ending in:\n%s" % (n, len(text), len(lines), "\n".join(lines[-8:])),
+                "lines_of_the_offending_command_and_argument": allowed, "stderr": (err_text or "")[-600:], "exit": res.exit_code}
+        if res.exit_code == 0 or (res.exception is not None and not isinstance(res.exception, SystemExit)):
+            ctx.fail("the command-line tool on a model of %d commands with a missing result: exit %s, %s" % (n, res.exit_code, type(res.exception).__name__), desc)
+        elif len(marked) != 1 or marked[0] not in [lines[k - 1] for k in allowed]:
+            ctx.fail("the command-line tool on a model of %d commands (%d characters) marks %r; the offending command/argument is on lines %r: %r" % (
+                n, len(text), marked[:3], allowed, [lines[k - 1] for k in allowed]), desc)
+
+
+PLUGIN_SRC = """
+import numpy
+from mpilot import params
+from mpilot.commands import Command
+
+ODD = {"list": lambda: [3, 1, 2], "scalar": lambda: numpy.float64(6.0), "none": lambda: None, "text": lambda: "abc", "pair": lambda: (1, 2), "map": lambda: {"a": 1},
+       "maybe": lambda: "maybe", "decimal": lambda: 2.5, "array": lambda: numpy.ma.array([1.0, 2.0])}
+
+
+class Odd(Command):
+    \"\"\" declares a data result, delivers what `Kind` names \"\"\"
+    inputs = {"Kind": params.StringParameter()}
+    output = params.DataParameter()
+
+    def execute(self, **kw):
+        return ODD[kw["Kind"]]()
+
+
+class OddFlag(Command):
+    inputs = {"Kind": params.StringParameter()}
+    output = params.BooleanParameter()
+
+    def execute(self, **kw):
+        return ODD[kw["Kind"]]()
+
+
+class OddNumbers(Command):
+    inputs = {"Kind": params.StringParameter()}
+    output = params.ListParameter(params.NumberParameter())
+
+    def execute(self, **kw):
+        return ODD[kw["Kind"]]()
+
+
+class Shown(Command):
+    \"\"\" takes the result of any command \"\"\"
+    inputs = {"Of": params.ResultParameter()}
+    output = params.StringParameter()
+
+    def execute(self, **kw):
+        return repr(kw["Of"].result)
+
+
+class WantFlag(Command):
+    inputs = {"Flag": params.ResultParameter(params.BooleanParameter())}
+    output = params.BooleanParameter()
+
+    def execute(self, **kw):
+        return not kw["Flag"].result
+
+
+class WantNumbers(Command):
+    inputs = {"Values": params.ListParameter(params.ResultParameter(params.ListParameter(params.NumberParameter())))}
+    output = params.BooleanParameter()
+
+    def execute(self, **kw):
+        return [v.result for v in kw["Values"]] != []
+"""
+
+
+def finished_producer_lines(ctx):
+    """a plug-in command whose actual result is not what it declares (a list, a numpy scalar, nothing, a word where an array / a boolean / a list of numbers is
+    declared), referenced by a command that takes any result and by one that wants the declared kind: whichever runs first, however the file is ordered,
+    and when the producer was asked for its result before run() - if the model is rejected, the error carries a line of the consumer whose argument is refused
+    (its command line, the argument's line, the list element's line), never the line of the producer or of the other consumer"""
+    import itertools, sys, types
+    from mpilot.program import Program
+    rng = ctx.rng
+    name = "mpverif_c11_plugins"
+    if name not in sys.modules:
+        m = types.ModuleType(name)
+        sys.modules[name] = m
+        exec(compile(PLUGIN_SRC, name, "exec"), m.__dict__)
+    libs = progrun.EEMS_LIBS + (name,)
+    # producer (command, kinds delivered), consumer lines with {} for the padding inside; own = offsets of the consumer's command / argument / element lines
+    setups = []
+    for kind in ("list", "scalar", "none", "text", "pair", "map"):
+        setups.append(("Odd", kind, ["Copied = Copy(", "", "    InFieldName = Src", ")"], [0, 2]))
+        setups.append(("Odd", kind, ["Total = Sum(", "    InFieldNames = [", "        Fine,", "        Src", "    ]", ")"], [0, 1, 3]))
+        setups.append(("Odd", kind, ["Fz = CvtToFuzzy(InFieldName = Fine,", "   TrueThreshold = 2)", "Total = FuzzyUnion(", "    InFieldNames = [Fz, Fz],", "   Metadata = [k: v])", "Written = PrintVars(", "# c", "    InFieldNames = [Fine,", "      Src])"], [5, 7, 8]))
+    for kind in ("maybe", "decimal", "list", "none"):
+        setups.append(("OddFlag", kind, ["Negated = WantFlag(", "", "", "    Flag = Src)"], [0, 3]))
+    for kind in ("text", "scalar", "map", "none"):
+        setups.append(("OddNumbers", kind, ["Checked = WantNumbers(", "    Values = [Src,", "              Src]", ")"], [0, 1, 2]))
+    for pcmd, kind, consumer, own in setups:
+        blocks = {"src": ["Src = %s(" % pcmd, "    Kind = %s" % kind, ")"], "fine": ["Fine = Odd(Kind = array)"], "shown": ["Shown_ = Shown(", "    Of = Src", ")"], "cons": consumer}
+        orders = list(itertools.permutations(sorted(blocks)))
+        rng.shuffle(orders)
+        for order in orders[:8 if not ctx.thorough else 24]:
+            for first_read in (False, True):
+                lines, allowed = [], None
+                for b in order:
+                    lines += [rng.choice(["", "# note", "   "]) for _ in range(rng.randrange(0, 4))]
+                    if b == "cons":
+                        allowed = [len(lines) + 1 + o for o in own]
+                    lines += blocks[b]
+                src = "\n".join(lines) + "\n"
+                try:
+                    p = Program.from_source(src, libraries=libs)
+                    if first_read:
+                        p.commands["Src"].result          # the producer is finished before the model is validated
+                    import contextlib, io
+                    with contextlib.redirect_stdout(io.StringIO()):
+                        p.run()
+                    got = "ok"
+                except Exception as e:
+                    got = progrun.classify(e)
+                ctx.case("finished-producer %s %s" % (first_read, src), sample={"source": src, "producer_read_first": first_read, "outcome": got})
+                ctx.count("finished_producer_cases")
+                ctx.count("finished_producer_outcome:" + ":".join(got.split(":")[:2]))
+                desc = {"source": src, "libraries": list(libs), "producer_asked_for_its_result_before_run": first_read, "lines_of_the_consumer_command_and_argument": allowed}
+                parts = got.split(":")
+                if parts[0] in ("mp", "unexpected"):
+                    if parts[2] in ("-", "~"):
+                        ctx.fail("%s carries no line; the refused argument (the result of %s delivering %s) is on lines %r" % (parts[1], pcmd, kind, allowed), desc)
+                    elif int(parts[2]) not in allowed:
+                        ctx.fail("%s carries line %s; the command whose argument is refused (the result Src, which is %s where %s is declared) is on lines %r" % (
+                            parts[1], parts[2], kind, {"Odd": "an array", "OddFlag": "a boolean", "OddNumbers": "a list of numbers"}[pcmd], allowed), desc)
+                elif got != "ok":
+                    ctx.fail("a model with a plug-in result of an undeclared kind: %s" % got, desc)
+
+
 def run(ctx):
     ctx.check_proofs(["MPilot.Props.C11", "MPilot.Props.C11Exact", "MPilot.Props.C13Cli"])
     model = common.Model()
@@ -319,6 +601,8 @@ def run(ctx):
     fault_lines(ctx, model)
     cycle_lines(ctx)
     runtime_lines(ctx)
+    finished_producer_lines(ctx)
+    large_sources(ctx)
     cli_marks(ctx, ctx.budget(30, 600), model)
     clicorr.formatting(ctx, model, ctx.budget(60, 3000))
     # files in EEMS 2.0 syntax (arguments on their own lines): faults carry the line of the command, as in MPilot syntax
